@@ -19,32 +19,67 @@ pub fn opts_for(min_digits: usize, max_digits: usize, neg_break: i32, pos_break:
     Some(b.build_unchecked())
 }
 
+/// C14 (notation choice): decimal output uses exponent notation exactly when its scientific exponent lies outside
+/// [neg_break, pos_break]; judged on the written digits (no digit rounding in these harnesses).
+pub fn notation_consistent(out: &[u8], nb: i32, pb: i32) -> Result<(), &'static str> {
+    let mut i = 0;
+    if i < out.len() && out[i] == b'-' { i += 1; }
+    let start = i;
+    let mut epos = out.len();
+    let mut k = i;
+    while k < out.len() { if out[k] == b'e' { epos = k; } k += 1; }
+    if epos < out.len() {
+        let mut j = epos + 1;
+        let neg = j < out.len() && out[j] == b'-';
+        if neg { j += 1; }
+        let mut e: i32 = 0;
+        while j < out.len() { if out[j] < b'0' || out[j] > b'9' { return Err("exponent digits are decimal digits"); } e = e * 10 + (out[j] - b'0') as i32; j += 1; }
+        if neg { e = -e; }
+        if !(e < nb || e > pb) { return Err("exponent notation is used only when the scientific exponent is outside the break points"); }
+        if epos < start + 1 || (epos > start + 1 && out[start + 1] != b'.') { return Err("scientific notation has exactly one integer digit"); }
+        return Ok(());
+    }
+    let mut dot = out.len();
+    let mut k = start;
+    while k < out.len() { if out[k] == b'.' && dot == out.len() { dot = k; } k += 1; }
+    let nint = dot - start;
+    let sci: i32 = if !(nint == 1 && out[start] == b'0') { nint as i32 - 1 } else {
+        let mut z = 0; let mut k = dot + 1;
+        while k < out.len() && out[k] == b'0' { z += 1; k += 1; }
+        if k >= out.len() { 0 } else { -(z as i32 + 1) }
+    };
+    if sci < nb || sci > pb { return Err("positional notation is used only when the scientific exponent is inside the break points"); }
+    Ok(())
+}
+
 /// write `v` into a buffer of exactly the documented size; Err = contract clause broken (a panic inside the writer is
 /// reported by the caller: Kani as a failed check, natively via catch_unwind).
-pub fn write_in_bound_f64<const F: u128>(v: f64, o: &Options) -> Result<usize, &'static str> {
+pub fn write_in_bound_f64<const F: u128>(v: f64, o: &Options, breaks: Option<(i32, i32)>) -> Result<usize, &'static str> {
     let bound = o.buffer_size_const::<f64, F>();
     if bound > CAP { return Err("bound fits the harness buffer (harness limit)"); }
     let mut buf = [0xAAu8; CAP + 8];
     let n = v.to_lexical_with_options::<F>(&mut buf[..bound], o).len();
     if n > bound { return Err("written length <= documented bound"); }
     if buf[bound] != 0xAA || buf[CAP + 7] != 0xAA { return Err("frame: no byte beyond the caller's slice is written"); }
+    if let Some((nb, pb)) = breaks { if v.is_finite() { notation_consistent(&buf[..n], nb, pb)?; } }
     Ok(n)
 }
-pub fn write_in_bound_f32<const F: u128>(v: f32, o: &Options) -> Result<usize, &'static str> {
+pub fn write_in_bound_f32<const F: u128>(v: f32, o: &Options, breaks: Option<(i32, i32)>) -> Result<usize, &'static str> {
     let bound = o.buffer_size_const::<f32, F>();
     if bound > CAP { return Err("bound fits the harness buffer (harness limit)"); }
     let mut buf = [0xAAu8; CAP + 8];
     let n = v.to_lexical_with_options::<F>(&mut buf[..bound], o).len();
     if n > bound { return Err("written length <= documented bound"); }
     if buf[bound] != 0xAA || buf[CAP + 7] != 0xAA { return Err("frame: no byte beyond the caller's slice is written"); }
+    if let Some((nb, pb)) = breaks { if v.is_finite() { notation_consistent(&buf[..n], nb, pb)?; } }
     Ok(n)
 }
 
 crate::harnesses! {
-    /// every finite f32, min_significant_digits 58..=60 (the bound is then the computed one, not FORMATTED_SIZE), breaks in -6..=-1 / 1..=9.
-    /// @prop C09
+    /// every finite f32, min_significant_digits 58..=60 (the bound is then the computed one, not FORMATTED_SIZE), breaks in -16..=-1 / 1..=9.
+    /// @prop C09 C14
     /// @feat default radix_format
-    /// @bound f32 (all finite bit patterns); min_significant_digits in 58..=60; negative break in -6..=-1; positive break in 1..=9; decimal
+    /// @bound f32 (all finite bit patterns); min_significant_digits in 58..=60; negative break in -16..=-1; positive break in 1..=9; decimal
     /// @fn lexical-write-float::options::Options::buffer_size_const
     /// @fn lexical-write-float::write::WriteFloat::write_float (check_buffer)
     /// @fn lexical-write-float::algorithm::{write_float_scientific, write_float_positive_exponent, write_float_negative_exponent}
@@ -57,13 +92,13 @@ crate::harnesses! {
         let v = f32::from_bits(bits);
         assume(v.is_finite());
         let mind: usize = any(); assume(mind >= 58 && mind <= 60);
-        let nb: i32 = any(); assume(nb >= -6 && nb <= -1);
+        let nb: i32 = any(); assume(nb >= -16 && nb <= -1);
         let pb: i32 = any(); assume(pb >= 1 && pb <= 9);
         let o = opts_for(mind, 0, nb, pb, false);
         vcheck!(o.is_some(), "these options are valid");
         if let Some(o) = o {
-            let r = write_in_bound_f32::<F>(v, &o);
-            vcheck!(r.is_ok(), "a buffer of buffer_size_const bytes suffices and nothing outside it is written");
+            let r = write_in_bound_f32::<F>(v, &o, Some((nb, pb)));
+            vcheck!(r.is_ok(), "a buffer of buffer_size_const bytes suffices, nothing outside it is written, notation follows the break points");
             cover(r.is_ok());
         }
     }
